@@ -225,6 +225,7 @@ func TestC20(t *testing.T) {
 				}
 				st.Class("program-ends-in-else-stop")
 			}
+			st.SkipShrink(rt, c)
 			f, info := runC20(c)
 			st.Eval()
 			st.ClassN("reloads", info.reloads)
